@@ -15,6 +15,7 @@ import (
 	"testing"
 
 	pkgproof "github.com/celestiaorg/celestia-app/v9/pkg/proof"
+	gsmerkle "github.com/celestiaorg/go-square/merkle"
 	libshare "github.com/celestiaorg/go-square/v4/share"
 	"github.com/celestiaorg/nmt"
 	logging "github.com/ipfs/go-log/v2"
@@ -125,6 +126,12 @@ func c12TamperCP(t *rapid.T, honest *CommitmentProof, root, com []byte, donor *C
 	switch group {
 	case "subtree-roots":
 		p.SubtreeRoots, op = vk.C12MutList(t, "str", p.SubtreeRoots, donor.SubtreeRoots)
+		if rapid.Bool().Draw(t, "str.rehash") {
+			// consistent forgery: the claimed commitment is recomputed over the tampered roots, so
+			// only the "every subtree root is consumed by a verified proof" logic can refuse it
+			cl.Com = gsmerkle.HashFromByteSlices(p.SubtreeRoots)
+			op += "+rehash"
+		}
 	case "sp-list":
 		op = rapid.SampledFrom([]string{"append-dup", "append-donor", "drop-first", "drop-last", "swap", "nil-elem", "empty", "all-donor"}).Draw(t, "sp.op")
 		switch op {
